@@ -87,6 +87,53 @@ class StepMeter:
 STEPS = StepMeter()
 
 
+class YieldInjector:
+    """sys.monitoring LINE callback that yields the GIL (sleep(0)) on a seeded fraction of the lines
+    executed inside dpapi_ng - schedule perturbation for the thread workloads (oracle unchanged)."""
+
+    TOOL = 5
+
+    def __init__(self) -> None:
+        self.yields = 0
+        self.lines = 0
+        self._installed = False
+        self._rng = None
+        self.every = 5
+
+    def install(self) -> None:
+        if self._installed:
+            return
+        mon = sys.monitoring
+        mon.use_tool_id(self.TOOL, "vf-yield")
+        mon.register_callback(self.TOOL, mon.events.LINE, self._on_line)
+        self._installed = True
+
+    def _on_line(self, code, line):
+        if not code.co_filename.startswith(DPAPI_ROOT):
+            return sys.monitoring.DISABLE
+        self.lines += 1
+        if self._rng.randrange(self.every) == 0:
+            self.yields += 1
+            time.sleep(0)
+
+    @contextlib.contextmanager
+    def active(self, seed: int, every: int = 5):
+        import random
+
+        self.install()
+        self._rng = random.Random(seed)
+        self.every = every
+        self.yields = self.lines = 0
+        sys.monitoring.set_events(self.TOOL, sys.monitoring.events.LINE)
+        try:
+            yield self
+        finally:
+            sys.monitoring.set_events(self.TOOL, 0)
+
+
+YIELDS = YieldInjector()
+
+
 # ---------------------------------------------------------------------------
 class KdfMeter:
     """Class-level wrap of cryptography's KBKDFHMAC.derive / ConcatKDFHash.derive: counts (and
